@@ -91,8 +91,61 @@ def execute(case):
         return out
     d = newdir()
     r = programs.StorageRunner(case['kind'], d, out, PROPERTY)
+
+    import contextlib
+
+    def hold_readers(storage, n):
+        """a FileStorage serves concurrent readers from a pool of read handles; holding n of them makes the next
+        load use the (n+1)-th - or open a new one, as for one more concurrent reader thread"""
+        stack = contextlib.ExitStack()
+        pool = getattr(storage, '_files', None)
+        if pool is not None and hasattr(pool, 'get'):
+            for _ in range(n):
+                stack.enter_context(pool.get())
+        return stack
+
+    def pool_size(storage):
+        pool = getattr(storage, '_files', None)
+        return len(getattr(pool, '_files', ())) if pool is not None else 0
+
+    def probe(runner, t, phase):
+        # ordinary reads while a transaction is stored / voted: through the pooled handle, and (voted) through a
+        # brand-new handle whose first read happens now
+        for oid in sorted(runner.model.oids())[-3:]:
+            for n in ([0] if phase != 'voted' else [0, min(pool_size(runner.storage), 3)]):
+                with hold_readers(runner.storage, n):
+                    try:
+                        runner.storage.load(oid, '')
+                    except KeyError:
+                        pass
+    r.probe = probe
+
+    def check_second_reader():
+        from vlib.model import q_load, q_loadBefore, MAXTID
+        oids = sorted(r.model.oids())[-4:]
+        first = [(q_load(r.storage, oid), q_loadBefore(r.storage, oid, MAXTID)) for oid in oids]
+        for n in range(1, min(pool_size(r.storage), 4)):
+            with hold_readers(r.storage, n):
+                other = [(q_load(r.storage, oid), q_loadBefore(r.storage, oid, MAXTID)) for oid in oids]
+            out.evals += 1
+            if other != first:
+                bad = [i for i in range(len(oids)) if other[i] != first[i]][0]
+                out.fail((PROPERTY, 'another-read-handle', 'differs'),
+                         'load/loadBefore(%r) through read handle #%d of the pool -> %r ; through the first %r' % (
+                             oids[bad], n + 1, other[bad], first[bad]))
+                return
     try:
-        r.run(case['prog'])
+        for op in case['prog']:
+            r.just_aborted_after_vote = False
+            r.step(op)
+            # (right after an abort that followed a vote the battery is left out in half of the cases: what the
+            # storage's read handles saw during the vote must not answer queries after the NEXT commit either)
+            if op[0] != 'clock' and not (r.just_aborted_after_vote and len(case['prog']) % 2):
+                r.check()
+                if not out.failures and case['kind'].startswith('fs'):
+                    check_second_reader()
+            if out.failures:
+                break
         if case['kind'].startswith('fs') and not out.failures:
             # closing and reopening changes no answer (with and without the index file)
             r.reopen(True)
